@@ -40,6 +40,18 @@ CHECKS = {
         note="Operands are built with the trusted normal-form constructors; sampling is dense at sign/day/tick/range edges but not exhaustive; floats checked to 2^-50 relative to the larger intermediate.",
         technique="TLA+ integer semantics (BigInt/T3) + scaled normal-form model in TLC + TLC trace validation of recorded calls",
     ),
+    "C14": dict(
+        category="model_checking",
+        text=("NzdCodec.tla specifies every documented encoding (varint, zig-zag, 4-way milliseconds with its canonical choice, "
+              "transition markers/hours/minutes/raw ticks, strings, yearly rules, alternating maps, precalculated zones) with "
+              "encoders and byte-cursor decoders; TLC proves Dec(Enc(v)) = v, exact consumption and the canonical-length rule on "
+              "residue-complete sub-domains; the real writer's bytes must equal Enc(v) and the real reader must return v consuming "
+              "exactly those bytes (junk appended), on the same domains, and every rule-based zone of both real database files must "
+              "re-encode to its original bytes, which the spec decoder must also parse and re-encode identically."),
+        design_ref="DESIGN.md section 5 C14",
+        note="Quick tier: +-2 ms around every whole minute of the 2-day millisecond domain (thorough: every whole second) plus random values; signed counts within +-2^30.",
+        technique="TLA+ codec specification model-checked by TLC + TLC trace validation of real writer/reader byte streams",
+    ),
     "C19": dict(
         category="model_checking",
         text=("TLC explores every interleaving of the line-level FakeClock model (2 threads x 2 ops, 3 x 1, liveness, "
